@@ -327,12 +327,30 @@ def tamper(field: int, delete: bool, sym: str, wrongpw: bool, otherip: bool, ela
     # the realm field is not used by the server (it hashes its own realm); qop / algorithm default to
     # the values the client used
     harmless = name == "realm"
+    dontcare = False
+    if name == "realm" and not delete:
+        for c in sym:
+            if c == '"':
+                # a quote inside the quoted realm value ends it early and re-frames what follows: the
+                # response as a whole is malformed and may be refused (thorough tier: sym = '"\x0c=')
+                dontcare = True
     if name == "qop" or name == "algorithm":
         # unquoted: an empty value or one starting with ',' does not parse as a pair at all = absent
-        if delete or len(sym) == 0 or sym[0] == ",":
+        if delete or len(sym) == 0:
             harmless = True
+        elif sym[0] == ",":
+            harmless = True
+            for c in sym[1:]:
+                if c == '"':
+                    # ... unless a stray quote follows: it opens a quoted string that swallows the
+                    # FOLLOWING fields, i.e. the response as a whole is malformed and may be refused
+                    # (thorough tier, x = 3: sym = ',="').  The property only demands "ok or an
+                    # ordinary login failure" here.  (False alarm of the first oracle, see DESIGN 6.)
+                    dontcare = True
         elif name == "algorithm" and _is_md5(sym):
             harmless = True
+    if dontcare and not wrongpw and not otherip and elapsed <= LIFETIME:
+        return res == "ok" or res == "login-failed" or res == "bad-password"
     good = harmless and not wrongpw and not otherip and elapsed <= LIFETIME
     if good:
         return res == "ok"
